@@ -16,8 +16,10 @@ import (
 	"math/big"
 	"math/rand"
 	"os"
+	"runtime"
 	"runtime/debug"
 	"strings"
+	"time"
 
 	"github.com/MinterTeam/minter-go-node/coreV2/events"
 	"github.com/MinterTeam/minter-go-node/coreV2/state"
@@ -101,19 +103,72 @@ func bstr(x *big.Int) string {
 	return x.String()
 }
 
-// guarded runs f and returns the recovered panic value (nil if none) and the top frames of its stack.
+// hangLimit: a single call of the swap package normally takes micro- to milliseconds; one that has not returned
+// after this long is reported as a hang (rule "hang") and the case is abandoned.
+var hangLimit = 25 * time.Second
+
+const hangMarker = "HANG: call did not return"
+
+// guarded runs f (in its own goroutine, so that an endless loop in the code under test cannot block the worker) and
+// returns the recovered panic value (nil if none) and the top frames of its stack.
 func guarded(f func()) (pv interface{}, site string) {
-	defer func() {
-		if r := recover(); r != nil {
-			pv = r
-			if pv == nil {
-				pv = "nil panic"
+	type res struct {
+		pv   interface{}
+		site string
+	}
+	ch := make(chan res, 1)
+	go func() {
+		var r res
+		defer func() {
+			if x := recover(); x != nil {
+				r.pv = x
+				r.site = panicSite(string(debug.Stack()))
 			}
-			site = panicSite(string(debug.Stack()))
-		}
+			ch <- r
+		}()
+		f()
 	}()
-	f()
-	return nil, ""
+	t := time.NewTimer(hangLimit)
+	defer t.Stop()
+	select {
+	case r := <-ch:
+		return r.pv, r.site
+	case <-t.C:
+		buf := make([]byte, 1<<20)
+		buf = buf[:runtime.Stack(buf, true)]
+		return fmt.Sprintf("%s within %s", hangMarker, hangLimit), hangSite(string(buf))
+	}
+}
+
+// hangSite finds the goroutine stuck below guarded() in a dump of all goroutines and names its innermost repo frames.
+func hangSite(dump string) string {
+	for _, g := range strings.Split(dump, "\n\n") {
+		if !strings.Contains(g, "h.guarded.func1") {
+			continue
+		}
+		var fr []string
+		for _, l := range strings.Split(g, "\n") {
+			if strings.HasPrefix(l, "\t") {
+				continue
+			}
+			if i := strings.Index(l, "minter-go-node/"); i >= 0 {
+				f := l[i+len("minter-go-node/"):]
+				if j := strings.LastIndex(f, "("); j > 0 {
+					f = f[:j]
+				}
+				fr = append(fr, f)
+			}
+		}
+		if len(fr) == 0 {
+			continue
+		}
+		// innermost frames first in the dump; keep the outermost two repo frames (stable entry points)
+		if len(fr) > 2 {
+			fr = fr[len(fr)-2:]
+		}
+		return strings.Join(fr, "<-")
+	}
+	return "?"
 }
 
 // panicSite extracts the first frames inside minter-go-node below the panic from a stack dump.
@@ -167,10 +222,19 @@ func (l *opLog) add(kind string, kv ...interface{}) {
 		}
 	}
 	l.Ops = append(l.Ops, m)
+	if traceOps {
+		bz, _ := json.Marshal(m)
+		fmt.Fprintln(os.Stderr, "op", string(bz))
+	}
 }
+
+var traceOps = os.Getenv("VERIF_TRACE_OPS") != ""
 
 // pkgViol reports a violation of a package-level check with the op trace as witness file.
 func pkgViol(ctx *WorkCtx, l *opLog, nviol *int, rule, site, detail string) {
+	if strings.Contains(detail, hangMarker) {
+		rule = "hang"
+	}
 	path := ctx.ReplayPath(l.Idx, *nviol)
 	*nviol++
 	if *nviol <= 3 { // the trace is the same for all of them: keep a few files only
